@@ -28,7 +28,7 @@ RULE = ('scenarios: trash-put of 1-2 entries with home, .Trash/$uid and .Trash-$
         '(volume read-only / full / over quota, directory not writable, I/O errors below a directory, immutable entry) and 25 (quick) / 120 (thorough) adaptive pairs of '
         'single shots; each faulted run: termination within the step cap, then the C01 frame oracle with two narrow relaxations, and exit '
         'status/diagnostic consistent with the final state; evaluations = faulted runs; distinct = (op kind, errno, outcome) triples')
-ASSUMPTIONS = ['faults are clean failures: the failing call has no effect', 'ENOENT/EEXIST are not injected on calls where a correct kernel could not return them']
+ASSUMPTIONS = ['an injected errno is a clean failure: the failing call has no effect (a short write is the exception: it writes a part and says so)', 'ENOENT / ESTALE are injected on mkdir, exclusive create and rename (a network or FUSE file system, a directory removed and recreated by somebody else), not on lookups - there they simply mean that the entry is not there; EEXIST is not injected']
 PROBES = ['faulted-runs', 'fault-fired', 'fell-through-to-next-candidate', 'retried-other-name', 'cleanup-unlink-ran', 'failure-reported',
           'trashed-despite-fault', 'pairs', 'conditions', 'step-cap-hit']
 TECHNIQUE = 'deterministic simulation with errno injection enumerated over every op of seeded scenarios (single shots, persistent conditions, pairs); termination + frame oracle'
@@ -204,7 +204,7 @@ def check(sim, case, st):
         st.probes['fault-fired'] += 1
         for i, _g in fired:
             f = faults[i]
-            st.faults[(E.errorcode.get(f.get('errno'), '') if f['kind'] == 'shot' else f['what'])] += 1
+            st.faults[('short_write' if f.get('short') else E.errorcode.get(f.get('errno'), '?')) if f['kind'] == 'shot' else f['what']] += 1
         probs = judge_run(b, named, r, a, fired, sim, mounts, desc, st)
         # probes
         if any(ev[2] in ('remove', 'unlink') and (ev[3] or '').endswith('.trashinfo') for ev in r.trace):
